@@ -132,9 +132,75 @@ func genOp(r *rng, re int, p *pat, allowLong bool) Op {
 	return op
 }
 
+// genC12LimitWindow: histories made of calls that grow the backtracking stack towards a limit chosen
+// inside their growth window, repeated with varying input lengths and entry points, so that a call runs
+// on an interpreter state whose stack an earlier call left partly or fully grown.
+func genC12LimitWindow(seed uint64, r *rng) *Scenario {
+	sc := &Scenario{Prop: "C12", Seed: seed, SchedSeed: mix64(seed, 12), OpStepCap: scriptOpCap, Mode: "limit-window", PeriodNs: int64(time.Millisecond)}
+	cfg := vsim.Config{Policy: vsim.Fair, Quantum: 100 + r.i64(900), MaxSteps: 400_000_000, PoolMode: []int{vsim.PoolLIFO, vsim.PoolRandom, vsim.PoolFIFO}[r.n(3)], MissProb: uint32(r.n(150))}
+	frags := []string{"a", "b", "c", "d", "ab", " ", ",", "a,", "abc", "ab ", "x"}
+	cl := Client{Cost: int64(200 + r.n(800))}
+	nre := 1 + r.n(2)
+	type pr struct {
+		op  Op
+		rep int
+	}
+	var probes []pr
+	for k := 0; k < nre; k++ {
+		s := ReSpec{Pat: deepPats[r.n(len(deepPats))], HasLimit: true}
+		if r.chance(1, 4) {
+			p := &corpus[r.n(len(corpus))]
+			s.Pat, s.Opts = p.Pat, p.Opts
+		}
+		found := false
+		for try := 0; try < 5 && !found; try++ {
+			probe := Op{Kind: OpFindString, In: InputSpec{Pre: frags[r.n(len(frags))], Unit: frags[r.n(len(frags))], Rep: (10 + r.n(60)) << uint(try), Suf: frags[r.n(len(frags))]}, N: -1, TimeoutNs: -1}
+			ref := c13Reference(s, &probe, scriptOpCap)
+			if ref.err != "" || ref.capped || ref.peak <= 64 {
+				continue
+			}
+			s.Limit = ref.peak/2 + 1 + r.n(ref.peak/2)
+			probe.Re = len(sc.Res)
+			probes = append(probes, pr{probe, probe.In.Rep})
+			found = true
+		}
+		if found {
+			sc.Res = append(sc.Res, s)
+		}
+	}
+	if len(probes) == 0 {
+		return sc
+	}
+	kinds := []int{OpFindString, OpMatchString, OpFindAllString, OpReplace, OpFindRunes, OpMatchRunes, OpSplit, OpFindStringAt, OpCompatAllSubmatch}
+	for n := 4 + r.n(14); n > 0; n-- {
+		p := probes[r.n(len(probes))]
+		op := p.op
+		op.Kind = kinds[r.n(len(kinds))]
+		op.Repl = repls[r.n(len(repls))]
+		switch r.n(4) {
+		case 0: // shorter
+			op.In.Rep = 1 + r.n(p.rep)
+		case 1: // a bit longer
+			op.In.Rep = p.rep + r.n(p.rep/2+2)
+		}
+		if v := pristine(sc.Res[op.Re], &op, scriptOpCap); v.capped {
+			continue
+		}
+		cl.Ops = append(cl.Ops, op)
+	}
+	sc.Clients = []Client{cl}
+	cfg.Alphabet = alphabetOf(sc)
+	sc.Cfg = cfg
+	nameOps(sc)
+	return sc
+}
+
 // genC12 builds one call history for one client (DESIGN §3 C12).
 func genC12(seed uint64, tier string) *Scenario {
 	r := newRng(seed)
+	if r.chance(1, 8) {
+		return genC12LimitWindow(seed, r)
+	}
 	sc := &Scenario{Prop: "C12", Seed: seed, SchedSeed: mix64(seed, 12), OpStepCap: scriptOpCap}
 	p := int64(time.Millisecond)
 	sc.PeriodNs = p
